@@ -70,7 +70,54 @@ def run(run, h):
             ready, tok, st = r["ready"], r["tok"], r["state"]
         run.count("history length %d" % npay)
         target(run, h, pts, batch, rng, M, M2, ready, tok, st)
+    generated_merchant_payment(run, h, rng)
     batch.flush()
+
+
+def generated_merchant_payment(run, h, rng):
+    """a merchant from merchant::Config::new: after an honest payment the closing signature and the new pay token must cover
+    exactly the old balances moved by the amount - no state with one slot changed, and none in which value was moved between
+    two slots (which a key with dependent exponents would let through)"""
+    for rep in range(1 if run.tier == "quick" else 3):
+        h.rng(rng.randrange(2 ** 31))
+        t = h.call("m_new")
+        Mg = Merchant()
+        Mg.handle, Mg.h = t[0], h
+        kpb = bytes.fromhex(t[1])
+        pk_hex = kpb[32 + 8 + 160 + 48:].hex()
+        Mg.cconfig = pk_hex + t[2] + t[3]
+        cb, mb = rng.randrange(100, 2 ** 40), rng.randrange(100, 2 ** 40)
+        est = full_establish(h, Mg, rng, rng.randbytes(32), cb, mb, b"g")
+        if not run.check_monitor("honest_establish_accepted", est["ok"], {"merchant": "generated"}):
+            continue
+        amt = rng.choice([1, -1, 7, 0])
+        r = pay_once(h, Mg, rng, est["ready"], amt, b"gp")
+        case = {"op": "generated_merchant_payment", "cb": cb, "mb": mb, "amount": amt}
+        run.case(case)
+        run.count("generated merchant payment")
+        if not run.check_monitor("honest_payment_accepted", r["ok"], dict(case, stage=r.get("stage"))):
+            continue
+        stt = parse_started(r["started"])
+        new = stt["new"]
+        expect_close = [cid_scalar(new["cid"]), CLOSE, new["lock"], (cb - amt) % Q, (mb + amt) % Q]
+        expect_state = [cid_scalar(new["cid"]), new["nonce"], new["lock"], (cb - amt) % Q, (mb + amt) % Q]
+        cs_tok = h.call("bsig_unblind", r["closing"], sc(stt["bf_close"]))[1]
+        tk_tok = h.call("bsig_unblind", r["token"], sc(stt["bf_token"]))[1]
+        ok = (h.call("sig_verify", 5, pk_hex, scs(expect_close), cs_tok)[0] == "1"
+              and h.call("sig_verify", 5, pk_hex, scs(expect_state), tk_tok)[0] == "1")
+        run.check_monitor("closing_signature_covers_exactly_old_balances_moved_by_amount", ok, case)
+        d = rng.choice([1, 1000, rand_nz(rng)])
+        for (msg, tok, nm) in ((expect_close, cs_tok, "close"), (expect_state, tk_tok, "state")):
+            for (i, j) in ((3, 4), (4, 3), (0, 2), (1, 3), (2, 4)):
+                m2 = list(msg)
+                m2[i], m2[j] = (m2[i] + d) % Q, (m2[j] - d) % Q
+                bad = h.call("sig_verify", 5, pk_hex, scs(m2), tok)[0] == "1"
+                run.check_monitor("signatures_cover_no_other_state", not bad, dict(case, which=nm, moved=[j, i], delta=d))
+            for j in range(5):
+                m2 = list(msg)
+                m2[j] = (m2[j] + 1) % Q
+                bad = h.call("sig_verify", 5, pk_hex, scs(m2), tok)[0] == "1"
+                run.check_monitor("signatures_cover_no_other_state", not bad, dict(case, which=nm, slot=j))
 
 
 def target(run, h, pts, batch, rng, M, M2, ready, tok, st):
